@@ -11,7 +11,8 @@ type SecurityRequirements []SecurityRequirement
 func NewSecurityRequirements(s openapi3.SecurityRequirements, schemes SecuritySchemes) ([]SecurityRequirement, error) {
 	out := make([]SecurityRequirement, 0, len(s))
 	for _, sr := range s {
-		for k, v := range sr {
+		for _, k := range sortedKeys(sr) {
+			v := sr[k]
 			ss, err := NewSecurityRequirement(k, v, schemes)
 			if err != nil {
 				return nil, fmt.Errorf("new security requirements %q: %w", k, err)
